@@ -92,7 +92,7 @@ struct OutBuf : std::streambuf {
 };
 
 struct Outcome {
-   int status = 0; bool exited_via_exit = false; std::string uncaught; std::string out, err; uint64_t steps = 0;
+   int status = 0; bool exited_via_exit = false; std::string uncaught; std::string out, err; uint64_t steps = 0, cpu_ms = 0;
    bool in_failed = false, out_failed = false, err_failed = false; uint64_t underflows = 0; size_t consumed = 0;
 };
 
@@ -115,6 +115,7 @@ void run_l1(const Scenario& s, Outcome& o)
    case SRC_DIR: source = g_fsdir; break;
    case SRC_EMPTYNAME: source = ""; break;
    case SRC_NONE: break;
+   case SRC_MISSING_LONG: source = g_fsdir + "/" + s.longname; break;
    }
    std::vector<std::string> args = {"gm2calc.x"};
    for (auto& a : s.pre_args) args.push_back(a);
@@ -133,6 +134,7 @@ void run_l1(const Scenario& s, Outcome& o)
    std::cerr.setf(std::ios::unitbuf);
    std::cin.exceptions(std::ios::goodbit); std::cout.exceptions(std::ios::goodbit); std::cerr.exceptions(std::ios::goodbit);
    g_steps = 0;
+   sim::Watchdog::arm();
    try {
       o.status = gm2calc_main((int)args.size(), argv.data());
    } catch (const ExitException& e) {
@@ -141,6 +143,7 @@ void run_l1(const Scenario& s, Outcome& o)
       const std::type_info* ti = abi::__cxa_current_exception_type();
       o.uncaught = ti ? demangle(ti->name()) : "unknown";
    }
+   o.cpu_ms = sim::Watchdog::disarm();
    o.steps = g_steps;
    std::cout.flush();
    std::cin.rdbuf(oin); std::cout.rdbuf(oout); std::cerr.rdbuf(oerr);
@@ -296,6 +299,7 @@ void run_plan(const std::vector<std::string>& plan, uint64_t run_index, const ch
          classify(s, o, rr);
          if (attempt == 0 && st) {
             st->add("steps", o.steps); st->add("status_" + std::to_string(o.status));
+            st->add(o.cpu_ms < 10 ? "cpu_lt_10ms" : o.cpu_ms < 100 ? "cpu_lt_100ms" : o.cpu_ms < 1000 ? "cpu_lt_1s" : o.cpu_ms < 5000 ? "cpu_lt_5s" : "cpu_ge_5s");
             for (auto& k : s.fault_kinds) st->add("fault_" + k);
             if (s.readerr >= 0 && s.src == SRC_STDIN) st->add(o.in_failed ? "fault_read_error_fired" : "fault_read_error_configured_but_eof_first");
             if (o.out_failed) st->add("fault_sink_failure_stdout_fired");
@@ -418,6 +422,36 @@ struct ConfigSpace {
 };
 PrefixSpace g_prefix, g_prefixq; TokenSpace g_token, g_tokenq; ConfigSpace g_config, g_configq;
 
+/// boundary sweep over the length of names and arguments given on the command line: every length 1..640 and a few
+/// large ones x 3 input types x {unopenable input file with a long name (one component / nested), long unknown option
+/// before the input option, long second input option after it, long bare word}; x 2 output-format families
+struct ArgLenSpace {
+   std::vector<long> lens; size_t total = 0;
+   static constexpr size_t NVAR = 6;
+   void build() { for (long l = 1; l <= 640; ++l) lens.push_back(l); for (long l : {1000L, 1023L, 1024L, 1025L, 4095L, 4096L, 4097L, 10000L, 32768L, 65536L}) lens.push_back(l); total = lens.size() * 3 * NVAR * 2; }
+   std::vector<std::string> plan(size_t idx) const
+   {
+      if (idx >= total) return {};
+      static const char* const ty[] = {"slha", "gm2calc", "thdm"};
+      const size_t fam = idx % 2; idx /= 2; const size_t var = idx % NVAR; idx /= NVAR; const size_t t = idx % 3; idx /= 3; const long len = lens[idx];
+      std::string base;
+      for (auto& f : g_corpus.files) if (f.rel.find(std::string("/input/example.") + (t == 0 ? "slha" : t == 1 ? "gm2" : "thdm")) != std::string::npos) base = f.rel;
+      if (base.empty()) base = g_corpus.files[0].rel;
+      std::vector<std::string> p = {"base corpus " + base, std::string("type ") + ty[t]};
+      p.push_back(fam ? "cfg 3 2 0 0 0 1 1" : "cfg 1 2 0 0 0 1 1"); // SLHA-type output (diagnostics into SPINFO) / detailed output (diagnostics to stderr)
+      switch (var) {
+      case 0: p.push_back("src missinglong " + std::to_string(len) + " 0"); break;
+      case 1: p.push_back("src missinglong " + std::to_string(len) + " 1"); break;
+      case 2: p.push_back("longarg pre 0 " + std::to_string(len)); break;
+      case 3: p.push_back("longarg post 1 " + std::to_string(len)); break;
+      case 4: p.push_back("longarg post 2 " + std::to_string(len)); break;
+      default: p.push_back("longarg post 4 " + std::to_string(len)); break;
+      }
+      return p;
+   }
+};
+ArgLenSpace g_arglen;
+
 std::vector<std::string> plan_of(const std::string& kind, uint64_t seed, uint64_t idx, std::string* mode)
 {
    if (kind == "RUNS") return gen_plan(g_corpus, sim::run_seed(seed, ENGINE_ID, idx), mode);
@@ -429,6 +463,7 @@ std::vector<std::string> plan_of(const std::string& kind, uint64_t seed, uint64_
    if (kind == "TOKENQ") return g_tokenq.plan(idx);
    if (kind == "CONFIG") return g_config.plan(idx);
    if (kind == "CONFIGQ") return g_configq.plan(idx);
+   if (kind == "ARGLEN") return g_arglen.plan(idx);
    if (kind == "CORPUS") { if (idx < 2 * g_corpus.files.size()) return {"base corpus " + g_corpus.files[idx / 2].rel, std::string("src ") + ((idx & 1) ? "path" : "stdin")}; }
    return {};
 }
@@ -444,7 +479,7 @@ int main(int argc, char** argv)
    g_fsdir = argv[3];
    mkdir(g_fsdir.c_str(), 0755);
    if (g_corpus.files.empty()) { std::printf("NOTE empty corpus\n"); }
-   g_prefix.build(false); g_prefixq.build(true); g_token.build(false); g_tokenq.build(true); g_config.build(false); g_configq.build(true);
+   g_prefix.build(false); g_prefixq.build(true); g_token.build(false); g_tokenq.build(true); g_config.build(false); g_configq.build(true); g_arglen.build();
 
    // calibrate the logical step budget on the intact corpus of the current tree
    uint64_t max_steps = 0;
@@ -459,7 +494,7 @@ int main(int argc, char** argv)
    while (sim::read_line(line)) {
       const auto t = sim::split(line);
       if (t.empty()) continue;
-      if (t[0] == "RUNS" || t[0] == "LIGHT" || t[0] == "PREFIX" || t[0] == "PREFIXQ" || t[0] == "TOKEN" || t[0] == "TOKENQ" || t[0] == "CONFIG" || t[0] == "CONFIGQ" || t[0] == "CORPUS") {
+      if (t[0] == "RUNS" || t[0] == "LIGHT" || t[0] == "PREFIX" || t[0] == "PREFIXQ" || t[0] == "TOKEN" || t[0] == "TOKENQ" || t[0] == "CONFIG" || t[0] == "CONFIGQ" || t[0] == "ARGLEN" || t[0] == "CORPUS") {
          const bool rnd = t[0] == "RUNS" || t[0] == "LIGHT";
          if (t.size() < (rnd ? 4u : 3u)) { std::printf("NOTE malformed command: %s\nDONE\n", line.c_str()); continue; }
          const uint64_t seed = rnd ? std::strtoull(t[1].c_str(), nullptr, 0) : 0;
@@ -483,7 +518,7 @@ int main(int argc, char** argv)
          g_hash_all = t.size() > 1 && t[1] != "0";
          std::printf("DONE\n");
       } else if (t[0] == "COUNT") {
-         std::printf("COUNT CONFIG %zu\nCOUNT CONFIGQ %zu\n", g_config.total, g_configq.total);
+         std::printf("COUNT CONFIG %zu\nCOUNT CONFIGQ %zu\nCOUNT ARGLEN %zu\n", g_config.total, g_configq.total, g_arglen.total);
          std::printf("COUNT PREFIX %zu\nCOUNT PREFIXQ %zu\nCOUNT TOKEN %zu\nCOUNT TOKENQ %zu\nCOUNT CORPUS %zu\nBUDGET %" PRIu64 " %" PRIu64 "\nDONE\n",
                      g_prefix.total, g_prefixq.total, g_token.total, g_tokenq.total, 2 * g_corpus.files.size(), g_budget, max_steps);
       } else if (t[0] == "DUMP" && t.size() >= 4) {
@@ -501,6 +536,7 @@ int main(int argc, char** argv)
             put("doc.bin", s.doc); put("l1.out", out); put("l1.err", err);
             std::string meta = "type " + s.type + "\nsrc " + std::to_string((int)s.src) + "\nstatus " + std::to_string(rr.status) + "\nchunk " + std::to_string(s.chunk_seed) + " " + std::to_string(s.chunk_max) +
                                "\nreaderr " + std::to_string(s.readerr) + "\neintr " + std::to_string(s.eintr) + "\nsinkfail_out " + std::to_string(s.sinkfail_out) + "\nsinkfail_err " + std::to_string(s.sinkfail_err) + "\n";
+            if (s.src == SRC_MISSING_LONG) meta += "longname " + s.longname + "\n";
             for (auto& a : s.pre_args) meta += "prearg " + a + "\n";
             for (auto& a : s.post_args) meta += "postarg " + a + "\n";
             put("meta.txt", meta);
